@@ -80,6 +80,12 @@ def _gen(spec):
                     _ENC(bad)
                 except Exception:
                     pass
+            if i % 3 == 0:
+                # ... nor does a DEcode of another spelling of the same number just before (all four digits written out, no filler)
+                try:
+                    _DEC(bytes([(val // 253 ** k) % 253 + 1 for k in range(4)]))
+                except Exception:
+                    pass
             rows.append(limbs(val) + _enc_all([val])[0])
         return {"kind": "enc", "rows": rows}
     if kind == "dec_hist":
@@ -88,6 +94,12 @@ def _gen(spec):
         bufs = {"bytearray": bytearray(), "list": []}
         for i, st in enumerate(spec["strings"]):
             how = ("bytearray", "list", "bytes")[(i // 5) % 3]      # runs of consecutive calls with the same object
+            if i % 4 == 0 and 0 < len(st) < 4 and all(1 <= b <= 253 for b in st):
+                # an ENcode just before whose result starts with these very bytes (a larger number with the same low digits)
+                try:
+                    _ENC(sum((b - 1) * 253 ** k for k, b in enumerate(st)) + 253 ** len(st) * (1 + i % 7))
+                except Exception:
+                    pass
             if how == "bytes":
                 arg = bytes(st)
             else:
